@@ -2806,8 +2806,8 @@ impl CommandParser {
             return Err(FerrousError::Command(CommandError::WrongNumberOfArguments("ZPOPMIN".into())));
         }
         let count = if frames.len() == 3 {
-            Some(Self::extract_string(&frames[2])?.parse::<usize>()
-                .map_err(|_| FerrousError::Command(CommandError::InvalidIntegerValue))?)
+            Some(Self::extract_string(&frames[2])?.parse::<i64>().ok().and_then(|n| usize::try_from(n).ok())
+                .ok_or(FerrousError::Command(CommandError::InvalidIntegerValue))?)
         } else {
             None
         };
@@ -2822,8 +2822,8 @@ impl CommandParser {
             return Err(FerrousError::Command(CommandError::WrongNumberOfArguments("ZPOPMAX".into())));
         }
         let count = if frames.len() == 3 {
-            Some(Self::extract_string(&frames[2])?.parse::<usize>()
-                .map_err(|_| FerrousError::Command(CommandError::InvalidIntegerValue))?)
+            Some(Self::extract_string(&frames[2])?.parse::<i64>().ok().and_then(|n| usize::try_from(n).ok())
+                .ok_or(FerrousError::Command(CommandError::InvalidIntegerValue))?)
         } else {
             None
         };
@@ -3513,6 +3513,17 @@ impl LuaCommandAdapter {
             .into_iter()
             .map(|s| RespFrame::bulk_string(s))
             .collect();
+        
+        // SPOP, SRANDMEMBER and SETRANGE have free-standing handlers: run the very code of the directly issued
+        // command (counts / offsets parsed as i64 then converted, `SPOP s 1` an array, a missing key without count nil)
+        if let Some(RespFrame::BulkString(Some(name))) = frames.first() {
+            match String::from_utf8_lossy(name).to_uppercase().as_str() {
+                "SPOP" => return crate::storage::commands::sets::handle_spop(&self.executor.storage, db_index, &frames),
+                "SRANDMEMBER" => return crate::storage::commands::sets::handle_srandmember(&self.executor.storage, db_index, &frames),
+                "SETRANGE" => return crate::storage::commands::strings::handle_setrange(&self.executor.storage, db_index, &frames),
+                _ => {}
+            }
+        }
         
         let mut parsed = CommandParser::parse(&frames)?;
         parsed.db_override = Some(db_index);
